@@ -36,6 +36,36 @@
 #include <deque>
 #include <memory>
 #include <set>
+#include <sys/epoll.h>
+#include <sys/select.h>
+#include <sys/syscall.h>
+
+// ---- the timeout the loop hands to the kernel -----------------------------------------------------------------------------
+// The harness defines epoll_wait() and select() itself (the statically linked loop code binds to these definitions) and
+// forwards to the raw system calls. With g_kw_mode == 0 (realtime leg) the call is passed through unchanged. With
+// g_kw_mode == 1 (virtual clock: real time means nothing) the requested timeout is reported to g_kw_hook and the kernel is
+// asked not to block at all.
+namespace {
+int g_kw_mode = 0;
+void (*g_kw_hook)(bool infinite, int64_t micros) = nullptr;
+}
+extern "C" int epoll_wait(int epfd, struct epoll_event *events, int maxevents, int timeout) {
+    if (g_kw_mode) {
+        if (g_kw_hook) g_kw_hook(timeout < 0, (int64_t)timeout * 1000);
+        timeout = 0;
+    }
+    return (int)syscall(SYS_epoll_pwait, epfd, events, maxevents, timeout, (void *)0, (size_t)8);
+}
+extern "C" int select(int nfds, fd_set *rs, fd_set *ws, fd_set *es, struct timeval *tv) {
+    struct timespec ts = {0, 0}, *pts = nullptr;
+    if (g_kw_mode) {
+        if (g_kw_hook) { if (!tv) g_kw_hook(true, -1); else g_kw_hook(false, (int64_t)tv->tv_sec * 1000000 + tv->tv_usec); }
+        pts = &ts;
+    } else if (tv) {
+        ts.tv_sec = tv->tv_sec; ts.tv_nsec = (long)tv->tv_usec * 1000; pts = &ts;
+    }
+    return (int)syscall(SYS_pselect6, nfds, rs, ws, es, pts, (void *)0);
+}
 
 using tbox::event::Event;
 using tbox::event::Loop;
@@ -117,15 +147,27 @@ struct Core {
     uint64_t last_deadline_fired = 0;
     int max_armed = 0;
     bool cb_mut = false, late2d = false;
-    std::string order_suspect, wait_suspect;
+    std::string order_suspect, wait_suspect, kwait_suspect;
+    size_t wait_at = 0, kwait_at = 0;      // length of the script log when the suspicion arose
     uint64_t after_fail = 0;    // callbacks that still arrive after the case failed (a loop that spins is left by exception)
 
-    void note(const std::string &s) { if (record && log.size() < 5500) { log += s; log += ' '; } }
+    std::string last_note;
+    int note_rep = 0;
+    //! script log; an entry repeated back to back (catch-up invocations) is written once with a repeat count
+    void note(const std::string &s) {
+        if (!record || log.size() >= 5500) return;
+        if (s == last_note) { ++note_rep; return; }
+        flush_rep();
+        log += s; log += ' ';
+        last_note = s;
+    }
+    void flush_rep() { if (note_rep > 0) { log += vh::fmt("(x%d) ", note_rep + 1); note_rep = 0; } last_note.clear(); }
 
-    void fail(const std::string &key, const std::string &detail) {
+    void fail(const std::string &key, const std::string &detail, size_t desc_len = std::string::npos) {
         if (failed) return;
         failed = true;
-        vh::st().case_desc = lazy_desc ? lazy_desc() : log;
+        flush_rep();
+        vh::st().case_desc = lazy_desc ? lazy_desc() : (desc_len < log.size() ? log.substr(0, desc_len) + "<- here" : log);
         vh::viol(key_filter ? key_filter(key) : key, detail);
     }
     std::function<std::string(const std::string &)> key_filter;
@@ -249,7 +291,8 @@ struct Core {
 
     //! end of the script: a wait-time suspicion that no missed fire explained is reported on its own
     void finish_script() {
-        if (!failed && !wait_suspect.empty()) fail("loop/wait-time/longer-than-nearest-deadline", wait_suspect);
+        if (!failed && !wait_suspect.empty()) fail("loop/wait-time/longer-than-nearest-deadline", wait_suspect, wait_at);
+        if (!failed && !kwait_suspect.empty()) fail("loop/kernel-wait/longer-than-nearest-deadline", kwait_suspect, kwait_at);
     }
 
     //! "the loop sleeps no longer than the nearest deadline"
@@ -261,6 +304,7 @@ struct Core {
         int64_t bound = mind > g_clock ? (int64_t)(mind - g_clock) : 0;
         if (w < 0 || w > bound) {
             // reported at the end of the script unless a timer turns out to be lost altogether (then the missed fire is the finding)
+            if (wait_suspect.empty()) { flush_rep(); wait_at = log.size(); }
             if (wait_suspect.empty())
                 wait_suspect = vh::fmt("getWaitTime()=%lld with the nearest armed deadline %lld ms away (clock=%llu, pass %llu)", (long long)w, (long long)bound,
                                        (unsigned long long)g_clock, (unsigned long long)pass_no);
@@ -268,6 +312,35 @@ struct Core {
         }
         if (bound > 0 && w == bound) CNT("wait_time_equals_distance_to_nearest_deadline");
         if (bound == 0) CNT("wait_time_zero_with_overdue_timer");
+    }
+
+    //! one runLoop(kOnce) pass. Without the no-op task the loop computes a real timeout for the kernel (seen by the interposer)
+    void once_pass(uint64_t adv, bool noop) {
+        begin_pass(adv);
+        if (noop) lb.loop->runNext([] {}); else CNT("once_pass_without_pending_task");
+        lb.loop->runLoop(Loop::Mode::kOnce);
+        end_pass();
+    }
+
+    //! the same bound on the timeout the loop really hands to epoll_wait()/select() (seen by the interposed functions)
+    void on_kernel_wait(bool infinite, int64_t micros) {
+        if (failed) return;
+        CNT("kernel_waits_observed");
+        uint64_t mind = 0;
+        if (!min_deadline(mind)) return;
+        uint64_t bound_ms = mind > g_clock ? mind - g_clock : 0;
+        bool too_long = infinite || micros < 0 || (uint64_t)micros > bound_ms * 1000 + 0;
+        if (bound_ms > (uint64_t)1 << 53) too_long = infinite || micros < 0;     // bound * 1000 would not fit; nothing that large is generated
+        if (too_long) {
+            if (kwait_suspect.empty()) { flush_rep(); kwait_at = log.size(); }
+            if (kwait_suspect.empty())
+                kwait_suspect = vh::fmt("%s asked the kernel to wait %s (%lld us) while the nearest armed deadline is %llu ms away (clock=%llu, pass %llu)",
+                                        lb.epoll ? "epoll_wait" : "select", infinite ? "indefinitely" : "too long", (long long)micros,
+                                        (unsigned long long)bound_ms, (unsigned long long)g_clock, (unsigned long long)pass_no);
+            return;
+        }
+        if (bound_ms > 0 && micros > 0) CNT("kernel_wait_positive_timeout_within_bound");
+        if (bound_ms >= ((uint64_t)1 << 31) && micros > 0) CNT("kernel_wait_with_nearest_deadline_beyond_2^31_ms");
     }
 
     //! clock advance before a pass, drawn relative to what is armed
@@ -300,6 +373,10 @@ struct Core {
     }
 };
 
+Core *g_core = nullptr;
+void kw_hook(bool infinite, int64_t micros) { if (g_core) g_core->on_kernel_wait(infinite, micros); }
+struct CoreScope { explicit CoreScope(Core *c) { g_core = c; } ~CoreScope() { g_core = nullptr; } };
+
 uint64_t pick_t0(vh::Rng &r) {
     switch (r.below(10)) {
         case 0: return 0;
@@ -315,11 +392,15 @@ uint64_t pick_t0(vh::Rng &r) {
 
 std::vector<uint64_t> pick_palette(vh::Rng &r) {
     std::vector<uint64_t> p;
-    switch (r.below(6)) {
+    switch (r.below(8)) {
         case 0: { uint64_t d = (uint64_t)r.range(1, 50); p.push_back(d); CNT("palette_single_interval"); break; }   // everything ties
         case 1: p = {1, 2, 3}; break;
         case 2: p = {5, 10, 20, 40}; break;                                   // harmonic: deadlines coincide again and again
         case 3: p = {1, 1, 2, 50}; break;
+        case 4:   // far-away deadlines (an alarm armed days ahead): the distance no longer fits the kernel's int milliseconds
+            p = {(1ULL << 31) - 1, 1ULL << 31, (1ULL << 31) + 1, (1ULL << 32) + 7, 2592000000ULL, 3 * (1ULL << 31) + 5, 1, 40};
+            CNT("palette_with_intervals_beyond_2^31_ms");
+            break;
         default: for (int i = 0; i < 6; ++i) p.push_back((uint64_t)r.range(1, 50)); break;
     }
     return p;
@@ -561,9 +642,11 @@ void age_loop(TimerWorld &w, int n) {
 
 void timer_random_case(uint64_t idx, vh::Rng &r) {
     TimerWorld w;
+    CoreScope scope(&w);
     w.r = &r;
     static const int kSlots[] = {1, 2, 3, 3, 4, 4, 5, 6, 8, 8};
     int nslots = r.pick(kSlots);
+    if (r.chance(1, 16)) { nslots = r.chance(1, 2) ? 24 : 70; CNT("cases_with_24_or_70_timer_slots"); }   // heap depth 5-7, beyond the record pool's retention of 64
     w.setup((idx & 1) == 0, nslots);
     g_clock = pick_t0(r);
     uint64_t t0 = g_clock;
@@ -599,10 +682,7 @@ void timer_random_case(uint64_t idx, vh::Rng &r) {
             w.check_wait();
             if (w.failed) break;
             uint64_t adv = (s == nsteps - 1) ? w.pick_adv() + 60 : w.pick_adv();
-            w.begin_pass(adv);
-            w.lb.loop->runNext([] {});
-            w.lb.loop->runLoop(Loop::Mode::kOnce);
-            w.end_pass();
+            w.once_pass(adv, r.chance(1, 2));
             w.check_all_enabled("pass");
         }
     } else {
@@ -646,6 +726,7 @@ void timer_random_case(uint64_t idx, vh::Rng &r) {
     if (w.cb_mut) CNT("cases_with_in_callback_mutation");
     if (w.late2d) CNT("cases_with_late_wake");
     CMAX("max_callbacks_in_one_case", w.callbacks);
+    w.flush_rep();
     std::string log = w.log;
     uint64_t cbs = w.callbacks;
     w.teardown();
@@ -808,6 +889,7 @@ struct PoolWorld : Core {
 
 void pool_random_case(uint64_t idx, vh::Rng &r) {
     PoolWorld w;
+    CoreScope scope(&w);
     w.r = &r;
     w.setup((idx & 1) == 0);
     g_clock = pick_t0(r);
@@ -833,10 +915,7 @@ void pool_random_case(uint64_t idx, vh::Rng &r) {
             w.check_wait();
             if (w.failed) break;
             uint64_t adv = (s == nsteps - 1) ? w.pick_adv() + 60 : w.pick_adv();
-            w.begin_pass(adv);
-            w.lb.loop->runNext([] {});
-            w.lb.loop->runLoop(Loop::Mode::kOnce);
-            w.end_pass();
+            w.once_pass(adv, r.chance(1, 2));
         }
     } else {
         populate();
@@ -874,6 +953,7 @@ void pool_random_case(uint64_t idx, vh::Rng &r) {
     if (w.cb_mut) CNT("cases_with_in_callback_mutation");
     if (w.late2d) CNT("cases_with_late_wake");
     CMAX("max_callbacks_in_one_case", w.callbacks);
+    w.flush_rep();
     std::string log = w.log;
     uint64_t cbs = w.callbacks;
     w.teardown();
@@ -917,6 +997,7 @@ void exhaustive_case(uint64_t idx, vh::Rng &r, int depth) {
     for (int i = 0; i < depth; ++i) total *= kAlphabet;
 
     TimerWorld w;
+    CoreScope scope(&w);
     w.r = &r;
     w.setup((idx & 1) == 0, 3);
     w.record = false;
@@ -1025,6 +1106,7 @@ uint64_t real_ms() {
 
 void realtime_case(uint64_t idx, vh::Rng &r) {
     tbox::event::verif::SetSteadyClockMs(nullptr);
+    g_kw_mode = 0;
     struct RT { TimerEvent *ev = nullptr; bool persist = false, armed = false, touched = false; uint64_t d = 0, t_before = 0, t_after = 0, k = 0, fires = 0; };
     bool epoll = (idx & 1) == 0;
     Loop *loop = Loop::New(epoll ? "epoll" : "select");
@@ -1094,6 +1176,7 @@ void realtime_case(uint64_t idx, vh::Rng &r) {
     loop->cleanup();
     delete loop;
     tbox::event::verif::SetSteadyClockMs(clock_fn);
+    g_kw_mode = 1;
     vh::Sig sg; sg.add(desc); sg.add(W);
     vh::note_case(sg.h, total > 0);
     if (vh::want_sample(1)) vh::sample("{\"family\":\"realtime\",\"callbacks\":" + std::to_string(total) + ",\"timers\":" + vh::jstr(desc) + "}", 1);
@@ -1106,6 +1189,8 @@ int main(int argc, char **argv) {
     const std::string mode = vh::st().args.mode;
     long depth = vh::st().args.num("depth", 3);
     tbox::event::verif::SetSteadyClockMs(clock_fn);
+    g_kw_mode = 1;
+    g_kw_hook = kw_hook;
     if (mode == "xcount") { printf("%d\n", kConfigs * kActions); return 0; }
     return vh::run(argc, argv, [&](uint64_t idx, vh::Rng &r) {
         try {
